@@ -4,6 +4,9 @@
    member counts (0..2 quick / 0..3 thorough) x odd/even index arrays x every subset of fields with an embedded
    callback, the closed form MemberOffset the accessors must implement lands exactly where the writer's cursor put each
    member (contiguous, aligned, no overlap, no hole).
+   member (contiguous, aligned, no overlap, no hole), and that the C accessors as transcribed (Typelib!AccessorOffset, TypelibApi
+   part 4b) meet it.  One witness configuration per what-if switch Dev (behaviour of an earlier version, repaired by a fix:
+   commit) must FAIL: Typelib_w_union / _uniondep / _boxed / _genenum / _genunion / _gendouble / _genstring.cfg.
 2. Typelibs: compiled by REPO's g-ir-compiler from generated documents (every combination of empty / non-empty member
    sections per container kind -- the shapes TLC exports --, the element case families of C06, seeded random documents
    with attributes on every node) AND the system GLib/GObject/Gio/GModule typelibs.
@@ -104,9 +107,16 @@ def run():
                         coverage=False,
                         label='section arithmetic: reader (MemberOffset) meets writer, the transcribed C accessors meet the reader, for every container '
                               'shape, counts 0..%d, odd/even index arrays, every subset of callback fields' % (2 if ck.quick else 3))))
-        mc_jobs.append(('Typelib_w_union.cfg', pool.submit(ck.tlc_mc, 'TypelibMC', 'Typelib_w_union.cfg', workers=1, timeout=3000, coverage=False,
-                        expect_ok=False, label='what-if (must fail): the union accessors as they were before fix f2204c4 (plain multiplication, '
-                                               'embedded CallbackBlobs ignored)')))
+        wpool = ThreadPoolExecutor(max(1, NCPU // 2))
+        for cfg, inv, what in (('Typelib_w_union.cfg', 'InvAccessor', 'Dev union_multiplies (before f2204c4)'),
+                               ('Typelib_w_uniondep.cfg', 'InvApi', 'Dev union_not_deprecated (before 5e762b5)'),
+                               ('Typelib_w_boxed.cfg', 'InvApi', 'Dev boxed_refused (before 9e9f49a)'),
+                               ('Typelib_w_genenum.cfg', 'InvApi', 'Dev gen_no_enum_methods (before d05070a)'),
+                               ('Typelib_w_genunion.cfg', 'InvApi', 'Dev gen_union_no_prefix (before 0aee3e2)'),
+                               ('Typelib_w_gendouble.cfg', 'InvApi', 'Dev gen_percent_f (before 66699dc)'),
+                               ('Typelib_w_genstring.cfg', 'InvApi', 'Dev gen_raw_newline (before cb67ae0)')):
+            mc_jobs.append(((cfg, inv), wpool.submit(ck.tlc_mc, 'TypelibMC', cfg, workers=1, timeout=3000, coverage=False, expect_ok=False,
+                                                     label='witness (must fail): ' + what)))
         if NCPU < 12:                           # few cores: one thing at a time
             for _cfg, _f in mc_jobs:
                 _f.exception()
@@ -158,9 +168,8 @@ def run():
 
     for cfg, fut in mc_jobs:
         r = fut.result()
-        if cfg and r.get('violated') != 'InvAccessor':
-            raise MachineryError('what-if %s did not violate InvAccessor (model vacuous?): %s'
-                                 % (cfg, r.get('error')))
+        if cfg and r.get('violated') != cfg[1]:
+            raise MachineryError('witness %s did not violate %s (model vacuous?): %s' % (cfg[0], cfg[1], r.get('error')))
     if mc_jobs:
         ck.notes.append('model checking done %.1fs after start' % (time.time() - ck.t0))
     rejected, exercised = T.parallel_verdict(ck, 'TypelibTrace', R.obs, R.envs)
